@@ -5,6 +5,7 @@ import (
 	"fmt"
 	"io"
 	"sort"
+	"strings"
 	"unicode/utf8"
 
 	"github.com/ricochet1k/termemu"
@@ -164,6 +165,7 @@ type profile struct {
 	cutAny   bool // cut chunks anywhere (inside sequences)
 	step     bool // one item per feed, for step-mode comparison
 	prefill  bool // start with text on the screen
+	minBytes int  // keep adding items until the stream is at least this long (reads larger than the 4096-byte buffer)
 	maxItems int
 	mask     int // observation mask written into the case header
 	weights  [kCount]int
@@ -298,6 +300,10 @@ func (r *rng) item(p profile, w, h int) (int, string) {
 			}
 			return kind, s + r.pick("n", "n", "c", "u")
 		}
+		if r.chance(1, 5) {
+			// not queries: the same finals behind an intermediate byte, a sub-parameter or a late private marker
+			return kind, r.pick("\x1b[6 n", "\x1b[5!n", "\x1b[6:1n", "\x1b[0$c", "\x1b[>0 c", "\x1b[?$u", "\x1b[6\"n", "\x1b[5;?n", "\x1b[ c", "\x1b[?1$u", "\x1b[6#n")
+		}
 		return kind, r.pick("\x1b[c", "\x1b[0c", "\x1b[>c", "\x1b[5n", "\x1b[6n", "\x1b[?u", "\x1b[1c", "\x1b[>0c", "\x1b[6n", "\x1b[n", "\x1b[7n")
 	case kKbd:
 		if r.chance(1, 6) {
@@ -307,6 +313,10 @@ func (r *rng) item(p profile, w, h int) (int, string) {
 			for i := 0; i < n; i++ {
 				s += fmt.Sprintf("\x1b[>%du", 1+r.n(31))
 			}
+			if r.chance(1, 2) {
+				// ... popped again around the 32-entry limit, then queried
+				s += "\x1b[<" + r.pick("31", "32", "33", "34", fmt.Sprint(n), fmt.Sprint(n-1)) + "u\x1b[?u"
+			}
 			return kind, s
 		}
 		switch r.n(5) {
@@ -315,7 +325,7 @@ func (r *rng) item(p profile, w, h int) (int, string) {
 		case 1:
 			return kind, fmt.Sprintf("\x1b[>%su", r.pick("", "0", "1", "5", "31", "3", "17"))
 		case 2:
-			return kind, "\x1b[<" + r.pick("", "1", "2", "5", "0", "40") + "u"
+			return kind, "\x1b[<" + r.pick("", "1", "2", "5", "0", "40", "32", "33") + "u"
 		case 3:
 			return kind, fmt.Sprintf("\x1b[=%du", r.n(32))
 		default:
@@ -355,6 +365,14 @@ func (r *rng) item(p profile, w, h int) (int, string) {
 		case 0:
 			return kind, "\x1b]" + r.pick("0", "2", "6", "7", "4", "52", "", "10", "112", "9999999999999999999999", "18446744073709551616", "18446744073709551618", "18446744073709551622", "18446744073709551623", "4294967296", "4294967298", "00", "07") + ";" + r.text(p.wide, 6) + r.pick("\x07", "\x1b\\")
 		case 1:
+			if r.chance(1, 2) {
+				// payloads with ESC, backslash and BEL inside, ending in an odd or even number of ESC bytes
+				pl := ""
+				for i, n := 0, r.n(5); i < n; i++ {
+					pl += r.pick("q", "\x1b", "\x1b\x1b", "\\", "\x07", "1;2", "\x1bA", "\\\x1b", "$", "\x18")
+				}
+				return kind, "\x1bP" + pl + r.pick("\x1b\\", "\x1b\\", "\x9c")
+			}
 			return kind, "\x1bP" + r.text(false, 5) + "\x1b\\"
 		case 2:
 			return kind, r.pick("\x1b(B", "\x1b)0", "\x1b=", "\x1b>", "\x1bc", "\x1b#8", "\x1b%G", "\x1b 7", "\x1b7", "\x1b8", "\x1b\\", "\x1bZ")
@@ -366,6 +384,27 @@ func (r *rng) item(p profile, w, h int) (int, string) {
 			return kind, "\x1b[" + fmt.Sprint(r.n(30)) + string(rune(0x40+r.n(63)))
 		}
 	case kHostile:
+		switch r.n(8) {
+		case 0:
+			// an overlong CSI: more parameters than any store holds (with and without values), any final byte
+			np := 28 + r.n(14)
+			if r.chance(1, 4) {
+				np = 60 + r.n(80)
+			}
+			t := "\x1b[" + r.pick("", "", "?", ">")
+			for i := 0; i < np; i++ {
+				if i > 0 {
+					t += ";"
+				}
+				if r.chance(2, 3) {
+					t += fmt.Sprint(r.n(70))
+				}
+			}
+			return kind, t + r.pick("m", "H", "r", "X", "h", "l", "n", "u", "J", "K", "S", "T", "L", "M", "P", "@", "d", "G", "A", "c", "t", "q")
+		case 1:
+			// very long runs of one byte class: digits, intermediates, escapes, continuation bytes
+			return kind, r.pick("\x1b[", "\x1b]", "\x1bP", "\x1b", "") + strings.Repeat(r.pick("9", ";", " ", "\x1b", "\x80", "\xe4", ":", "?", "0"), 20+r.n(300)) + r.pick("", "m", "\x07", "\x1b\\")
+		}
 		n := 1 + r.n(6)
 		b := make([]byte, n)
 		for i := range b {
@@ -450,7 +489,11 @@ func (r *rng) genCase(id string, p profile, mode, grid int) genCase {
 		pre += fmt.Sprintf("\x1b[%d;%dH", 1+r.n(h), 1+r.n(w))
 		c.ops = append(c.ops, genOp{kind: 110, data: []byte(pre), label: kText})
 	}
-	for i := 0; i < nItems; i++ {
+	minBytes := 0
+	if p.minBytes > 0 {
+		minBytes = p.minBytes + r.n(p.minBytes)
+	}
+	for i := 0; i < nItems || (len(stream) < minBytes && i < 20000); i++ {
 		kind, it := r.item(p, w, h)
 		if kind == kResize {
 			flush()
@@ -480,10 +523,17 @@ func (r *rng) genCase(id string, p profile, mode, grid int) genCase {
 			c.ops = append(c.ops, genOp{kind: 110, data: []byte(it), label: kind})
 			continue
 		}
-		if r.chance(1, 3) {
+		if minBytes == 0 && r.chance(1, 3) {
 			cuts = append(cuts, len(stream))
 		}
 		stream = append(stream, it...)
+		if minBytes > 0 {
+			// few cuts: most reads are longer than the reader's buffer, which then cuts them at 4096 bytes
+			if r.chance(1, 400) {
+				cuts = append(cuts, 1+r.n(len(stream)))
+			}
+			continue
+		}
 		if p.cutAny && r.chance(1, 4) && len(stream) > 1 {
 			cuts = append(cuts, 1+r.n(len(stream)-1))
 		}
@@ -556,14 +606,15 @@ var profiles = map[string]profile{
 	"stepall": {wide: true, step: true, prefill: true, maxItems: 12, weights: allKinds},
 	"c03":     {wide: true, step: true, prefill: true, maxItems: 12, weights: weights(kText, 55, kC0Move, 8, kCsiMove, 20, kSgr, 6, kMode, 8, kMargins, 3)},
 	"c04":     {wide: true, step: true, prefill: true, maxItems: 12, weights: weights(kText, 10, kC0Move, 30, kCsiMove, 45, kMargins, 10, kMode, 5)},
-	"c05":     {wide: true, step: true, prefill: true, maxItems: 10, weights: weights(kText, 15, kCsiMove, 25, kErase, 45, kSgr, 10, kC0Move, 5)},
-	"c06":     {wide: true, step: true, prefill: true, maxItems: 10, weights: weights(kText, 10, kCsiMove, 15, kScroll, 40, kMargins, 15, kC0Move, 15, kSgr, 5)},
+	"c05":     {wide: true, step: true, prefill: true, maxItems: 10, weights: weights(kText, 15, kCsiMove, 22, kErase, 45, kSgr, 10, kC0Move, 5, kMargins, 8)},
+	"c06":     {wide: true, step: true, prefill: true, maxItems: 12, weights: weights(kText, 12, kCsiMove, 12, kScroll, 38, kMargins, 12, kC0Move, 12, kSgr, 8, kErase, 10)},
 	"c07":     {wide: true, step: true, prefill: true, maxItems: 12, weights: weights(kText, 25, kSgr, 45, kErase, 15, kCsiMove, 10, kScroll, 5)},
 	"c09":     {wide: true, step: true, prefill: false, maxItems: 12, weights: weights(kText, 35, kString, 55, kOtherC0, 10)},
 	"c14":     {wide: true, cutAny: true, maxItems: 14, mask: 1<<1 | 1<<2 | 1<<4 | 1<<5, weights: weights(kText, 20, kCsiMove, 20, kQuery, 30, kKbd, 10, kAltScr, 5, kSgr, 5, kMode, 5, kString, 5)},
 	"c17":     {wide: true, step: true, prefill: true, maxItems: 18, weights: weights(kText, 22, kMode, 28, kAltScr, 20, kCsiMove, 8, kKbd, 16, kMargins, 4, kSgr, 4, kErase, 3)},
 	"c18":     {wide: true, step: true, prefill: true, maxItems: 10, weights: weights(kText, 25, kResize, 40, kCsiMove, 15, kMargins, 10, kC0Move, 5, kAltScr, 5)},
 	"c19":     {wide: false, step: true, maxItems: 60, mask: 1<<1 | 1<<2 | 1<<4 | 1<<5, weights: weights(kKbd, 80, kAltScr, 10, kText, 5, kQuery, 5)},
+	"c08long": {wide: true, cutAny: true, maxItems: 14, minBytes: 4300, weights: weights(kText, 60, kC0Move, 8, kCsiMove, 8, kErase, 4, kScroll, 3, kSgr, 8, kMode, 2, kQuery, 3, kString, 4)},
 	"c08":     {wide: true, cutAny: true, maxItems: 14, weights: weights(kText, 35, kC0Move, 8, kOtherC0, 2, kCsiMove, 12, kErase, 10, kScroll, 6, kMargins, 3, kSgr, 10, kMode, 5, kAltScr, 2, kQuery, 4, kKbd, 2, kString, 6)},
 }
 
